@@ -14,7 +14,7 @@ RULE = ('(policy, peer) pairs evaluated by the real Policy.evaluate on a real SS
         '(kex universe contains the strict-kex marker), all 4 flag combinations, all 16 optional-host-key subsets, size/CA/modulus maps over {absent,1024,2048,3072,4096}, '
         'field pairs jointly over a reduced universe, random large instances over database names, and policy files run through the CLI (-P) against scripted peers; '
         'a case (batch) is non-trivial when it contained at least one passing and one failing pair; distinct = distinct batch specifications')
-REQUIRED = {'old_size_directives': 200, 'multi_entry_size_maps': 700, 'other_file_layouts': 500, 'cli_multi_entries': 10, 'evaluations': 20000, 'model_pass': 500, 'model_fail': 500, 'metamorphic_checks': 200, 'cli_runs': 20}
+REQUIRED = {'free_text_banners': 25, 'old_size_directives': 200, 'multi_entry_size_maps': 700, 'other_file_layouts': 500, 'cli_multi_entries': 10, 'evaluations': 20000, 'model_pass': 500, 'model_fail': 500, 'metamorphic_checks': 200, 'cli_runs': 20}
 ASSUMPTIONS = ['don\'t-care where the statement is silent: compression under subset mode; an empty peer list under subset mode (optional host keys give no exemption under subset mode: the statement mentions them for exact mode only)',
                'sizes are compared only for key types / group-exchange names the peer actually presents (nothing to compare otherwise)']
 MANIFEST = {
@@ -393,7 +393,11 @@ def run_sizes(c):
             peer['dh'] = {GEX: qd}
         compare(pol, peer, viol, st)
     # banner and compression
-    for pb, qb in itertools.product([None, 'SSH-2.0-X_1', 'SSH-2.0-Y_2'], ['SSH-2.0-X_1', 'SSH-2.0-Y_2 c']):
+    # (the banner is free text after the software name: '=', '#' and ',' - the separators of the policy file - may occur in it, with or without blanks around them)
+    FREE = ['SSH-2.0-Y_2 rev = 7', 'SSH-2.0-Y_2 rev=7', 'SSH-2.0-Y_2 a # b', 'SSH-2.0-Y_2 k=v, w = z', 'SSH-2.0-Y_2 x=']
+    for pb, qb in list(itertools.product([None, 'SSH-2.0-X_1', 'SSH-2.0-Y_2'], ['SSH-2.0-X_1', 'SSH-2.0-Y_2 c'])) + list(itertools.product(FREE, FREE)):
+        if pb in FREE:
+            st['free_text_banners'] = st.get('free_text_banners', 0) + 1
         for pc, qc in itertools.product([None, ['none'], ['none', 'zlib@openssh.com'], ['zlib@openssh.com', 'none']], [['none'], ['none', 'zlib@openssh.com']]):
             pol = base_pol(c['flags'])
             peer = base_peer()
